@@ -50,6 +50,11 @@ lean/CxVerif/Impl: state structure in, state structure out.
               cross-checked against that kernel's own statement filter (every statement belongs to exactly one side).
 Anything else raises TranslateError -> reported as a broken extraction (the generated def degenerates and the tie theorem
 fails); nothing is skipped silently.
+After audit 3 (tools/ktx_glue_guard.py): the function is the ONE live definition in the live `impl` blocks its scope names (item
+`#[cfg]` evaluated); attributes / nested items / `use` inside a body, inner-block shadowing, `let x = &mut …` aliases (this
+translator gives `&mut` copy semantics), re-bound `&mut` parameters, changed imports of a used name, `debug_assert!` are refused;
+an operand / argument with a side effect evaluated after another operand was read is refused (`Tr.after`); a `while` loop FAILS
+(`.error .diverge` / `none`) when its fuel runs out and is called with `fuel + 1` (one unit for the last, false, test).
 """
 import os
 import re
@@ -58,6 +63,7 @@ import kernel_translate as KT
 from kernel_translate import TranslateError, lex, find_fn, strip_comments
 import ktx_misc
 from ktx_misc import P2
+import ktx_glue_guard as GUARD
 
 LEAN_KEYWORDS = ktx_misc.LEAN_KEYWORDS | {"cnt", "fuel"}
 NAT_TYPES = {"u16", "u32", "u64", "u128", "usize"}
@@ -74,7 +80,42 @@ def read_src(rel):
 # ===================================================================================================== parser
 
 class PG(P2):
-    """P2 + `while`, `return;`, `x[..]`, reference / generic types kept"""
+    """P2 + `while`, `return;`, `x[..]`, reference / generic types kept.  Attributes, nested items and `use` inside a body are REFUSED here
+    (the base parser skips them): a `#[cfg]` on a statement, a nested `fn` shadowing a callee and a local `use` all change what the body
+    means (audit 3, F4/F6).  `nested_ok`: names of nested `fn` items that are kernels of their own (translated from that very item and
+    registered before the enclosing function): those are skipped here."""
+    nested_ok = ()
+
+    def block(self):
+        stmts = []
+        while self.peek()[0] != "eof" and not self.at("}"):
+            if self.at(";"):
+                self.eat(); continue
+            if self.at("#"):
+                self.eat()
+                if self.at("!"):
+                    self.eat()
+                self.eat("["); head = self.peek()[1]; d = 1
+                while d:
+                    t = self.eat()[1]; d += (t == "[") - (t == "]")
+                if head not in GUARD.NEUTRAL_ATTRS:
+                    raise TranslateError(f"attribute #[{head}…] inside a function body is not supported")
+                continue
+            if self.atid("fn") and self.peek(1)[0] == "id" and self.peek(1)[1] in self.nested_ok:
+                while not self.at("{"):
+                    self.eat()
+                self.eat("{"); d = 1
+                while d:
+                    t = self.eat()
+                    if t[0] == "eof":
+                        raise TranslateError("unterminated nested fn")
+                    d += (t[1] == "{") - (t[1] == "}")
+                continue
+            if self.peek()[0] == "id" and self.peek()[1] in ("fn", "use", "struct", "impl", "mod", "static", "trait", "enum", "extern", "type", "macro_rules", "pub") \
+                    or (self.atid("const") and self.peek(1)[1] in ("fn", "unsafe")) or (self.atid("unsafe") and self.peek(1)[1] == "fn"):
+                raise TranslateError(f"nested `{self.peek()[1]}` item inside a function body is not supported")
+            stmts.append(self.stmt())
+        return stmts
 
     def ty(self):
         if self.at("&", "&&"):
@@ -209,9 +250,11 @@ def parse_sig(hdr):
 def find_struct(src, name):
     """fields [(name, rust type)] of `struct <name> … { … }`"""
     text = strip_comments(src)
-    m = re.search(r"\bstruct\s+" + re.escape(name) + r"\b[^{;(]*\{", text)
-    if not m:
-        raise TranslateError(f"struct {name} not found")
+    ms = [m for m in re.finditer(r"\bstruct\s+" + re.escape(name) + r"\b[^{;(]*\{", text)
+          if GUARD.attrs_live(GUARD.attrs_before(text, m.start()), f"struct {name}")]
+    if len(ms) != 1:
+        raise TranslateError(f"struct {name}: {len(ms)} live declarations; exactly one is required")
+    m = ms[0]
     depth, i = 1, m.end()
     while i < len(text) and depth:
         depth += {"{": 1, "}": -1}.get(text[i], 0)
@@ -481,6 +524,8 @@ def names_in(x, acc):
 
 
 class Tr:
+    epoch = 0
+
     def __init__(self, spec: Fn):
         self.spec = spec; self.mod = spec.mod
         self.src = read_src(self.mod.file)
@@ -488,6 +533,7 @@ class Tr:
         self.ntmp = 0; self.njoin = 0; self.nloop = 0; self.nwhile = 0
         self.in_loop = 0
         self.scopes = []         # names visible at the entry of each enclosing nested block (if-branch / loop body)
+        self.epoch = 0           # number of write-backs (re-bindings of a variable's Lean name) emitted so far: see `after`
 
     # ------------------------------------------------------------------------------------------- types
     def conv(self, t, owner=None):
@@ -571,6 +617,30 @@ class Tr:
         if ty is not None and ty.kind == "u8":
             return f"({hex(n) if n > 32 else n} : UInt8)"
         return hex(n) if n > 32 else str(n)
+
+    # ------------------------------------------------------------------------------------------- evaluation order
+    @staticmethod
+    def fragile(v):
+        """does the Lean text of this value depend on a variable binding (i.e. is it neither a literal nor a fresh temporary)?"""
+        return isinstance(v, Val) and v.lit is None and not re.fullmatch(r"t\d+|\(?(0x)?[0-9a-f]+( : UInt8\))?|true|false", v.t)
+
+    def after(self, earlier, thunk):
+        """evaluate `thunk` (the next operand, left to right as Rust does).  A value is a Lean TEXT over the current bindings and is put
+        into the output after everything the later operands emit.  So a later operand that re-binds a variable (a call with `&mut`
+        arguments, a `&mut self` method) would change what an earlier operand's text means: refused unless the earlier operands are
+        literals / fresh temporaries."""
+        e0 = self.epoch
+        r = thunk()
+        if self.epoch != e0 and any(self.fragile(x) for x in earlier):
+            raise TranslateError("an operand with a side effect is evaluated after another operand was read: Rust's left-to-right "
+                                 "order is not translated for this shape")
+        return r
+
+    def ordered(self, thunks):
+        vals = []
+        for th in thunks:
+            vals.append(self.after(vals, th))
+        return vals
 
     # ------------------------------------------------------------------------------------------- places
     def place(self, e, env):
@@ -691,6 +761,7 @@ class Tr:
         """`place = new` (the guards of the last step must already be in `pre`: see assign / out-arguments).
         `info`: (lo text|None, hi text|None) of a slice destination computed by slice_guard."""
         if not pl.path:
+            self.epoch += 1
             pre.append(lambda body, r=lean_id(pl.root), t=new: Let(r, t, body))
             return
         parent_pre = []
@@ -774,7 +845,7 @@ class Tr:
         if k == "array":
             items = e[1]
             rty = want if want is not None and want.kind == "rec" else None
-            vals = [self.ex(x, env, pre, rty.elem if rty else None) for x in items]
+            vals = self.ordered([(lambda x=x: self.ex(x, env, pre, rty.elem if rty else None)) for x in items])
             if rty is None:
                 rust = vals[0].ty.rust if vals and vals[0].ty.kind == "nat" else None
                 r = self.mod.recs.get((rust, len(vals)))
@@ -790,8 +861,11 @@ class Tr:
             if [f for f, _ in e[2]] and set(given) != {f for f, _ in sty.fields}:
                 raise TranslateError(f"struct literal of {e[1]}: field set differs from the declaration")
             parts = []
+            # (Rust evaluates the field initialisers in the order they are WRITTEN; the text is assembled in declaration order)
+            written = self.ordered([(lambda f=f, x=x: self.ex(x, env, pre, dict(sty.fields).get(f))) for f, x in e[2]])
+            wv = {f: v for (f, _), v in zip(e[2], written)}
             for f, fty in sty.fields:
-                v = self.ex(given[f], env, pre, fty)
+                v = wv[f]
                 self.compatible(fty, v.ty, f"field {f}")
                 if fty.kind == "bytes" and fty.n is not None and v.ty.n != fty.n:
                     raise TranslateError(f"field {f}: array length differs from the declaration")
@@ -822,7 +896,7 @@ class Tr:
                 raise TranslateError("unit method call used as a value")
             return v
         if k == "tuple":
-            vals = [self.ex(x, env, pre) for x in e[1]]
+            vals = self.ordered([(lambda x=x: self.ex(x, env, pre)) for x in e[1]])
             return Val("(" + ", ".join(v.t for v in vals) + ")", TTuple([v.ty for v in vals]), True)
         raise TranslateError(f"unsupported expression {k}")
 
@@ -842,7 +916,7 @@ class Tr:
         op = e[1]
         if op in self.CMP:
             a = self.ex(e[2], env, pre)
-            b = self.ex(e[3], env, pre, a.ty)
+            a, b = self.ordered([lambda: a, lambda: self.ex(e[3], env, pre, a.ty)])
             if a.ty.kind not in ("nat", "u8") or b.ty.kind != a.ty.kind:
                 raise TranslateError("comparison of unsupported operands")
             return Val(f"{a.p()} {self.CMP[op]} {b.p()}", TProp, False)
@@ -858,7 +932,7 @@ class Tr:
                 return Val(f"{a.p()} {op} {b.p()}", TBool, False)
             return Val(f"{prop(a)} {'∧' if op == '&&' else '∨'} {prop(b)}", TProp, False)
         a = self.ex(e[2], env, pre, want)
-        b = self.ex(e[3], env, pre, None if op in ("<<", ">>") else a.ty)
+        a, b = self.ordered([lambda: a, lambda: self.ex(e[3], env, pre, None if op in ("<<", ">>") else a.ty)])
         if a.ty.kind == "u8":
             if op in ("^", "&", "|") and b.ty.kind == "u8":
                 sym = {"^": "^^^", "&": "&&&", "|": "|||"}[op]
@@ -899,7 +973,8 @@ class Tr:
         args = e[2]
         segs = path.split("::")
         if path == "min" or path.endswith("::min"):
-            a = self.ex(args[0], env, pre); b = self.ex(args[1], env, pre, a.ty)
+            a = self.ex(args[0], env, pre)
+            a, b = self.ordered([lambda: a, lambda: self.ex(args[1], env, pre, a.ty)])
             return Val(f"min {a.p()} {b.p()}", a.ty, False)
         if path in self.mod.ext_fns:
             return self.ext_call(self.mod.ext_fns[path], None, args, env, pre)
@@ -993,6 +1068,7 @@ class Tr:
         pats, post = [], []
         for wb, direct in outs:
             if direct is not None:
+                self.epoch += 1
                 pats.append(direct)
             else:
                 t = self.tmp(); pats.append(t); wb(t, post)
@@ -1024,17 +1100,18 @@ class Tr:
         actuals = ([recv[0]] if recv is not None else []) + list(args)
         if len(actuals) != len(params):
             raise TranslateError(f"arity of {info.spec.fn}")
+        seen = []
         for a, (pn, pty, mode) in zip(actuals, params):
             if mode == "mut":
-                cur, wb, direct = self.out_arg(a, env, pre)
+                cur, wb, direct = self.after(seen, lambda: self.out_arg(a, env, pre))
                 self.compatible(pty, cur.ty, f"argument {pn}")
-                texts.append(cur.p()); outs.append((wb, direct))
+                texts.append(cur.p()); outs.append((wb, direct)); seen.append(cur)
             else:
-                v = self.ex(a, env, pre, pty)
+                v = self.after(seen, lambda: self.ex(a, env, pre, pty))
                 self.compatible(pty, v.ty, f"argument {pn}")
                 if pty.kind == "bytes" and pty.n is not None and v.ty.n != pty.n:
                     raise TranslateError(f"argument {pn}: array length")
-                texts.append(v.p())
+                texts.append(v.p()); seen.append(v)
         gen = ""
         if info.spec.mod.generic:
             if not self.mod.generic:
@@ -1054,12 +1131,13 @@ class Tr:
             else:
                 fmt["self"] = self.ex(recv[0], env, pre).p()
         vals = []
+        recv_val = [Val(fmt["self"], None)] if "self" in fmt else []
         for i, (a, mode) in enumerate(zip(args, ext.args)):
             if mode == "val":
-                v = self.ex(a, env, pre, ext.argty.get(i))
+                v = self.after(recv_val + vals, lambda: self.ex(a, env, pre, ext.argty.get(i)))
                 wb = None
             else:
-                v, wb, direct = self.out_arg(a, env, pre)
+                v, wb, direct = self.after(recv_val + vals, lambda: self.out_arg(a, env, pre))
                 if mode == "out":
                     outs.append((wb, direct))
                 else:
@@ -1131,6 +1209,21 @@ class Tr:
                 walk_e(e[1]); walk_e(e[2])
             elif k == "field":
                 walk_e(e[1])
+            elif k in ("lit", "path", "macro"):
+                pass                             # (macros: only `assert!` is translated, its condition may not have effects: do_macro)
+            else:
+                # any other expression kind: every sub-expression may contain a call with `&mut` arguments
+                for y in e[1:]:
+                    if isinstance(y, tuple):
+                        walk_e(y)
+                    elif isinstance(y, list):
+                        for z in y:
+                            if isinstance(z, tuple) and z and isinstance(z[0], str):
+                                walk_e(z)
+                            elif isinstance(z, tuple):
+                                for w in z:
+                                    if isinstance(w, tuple):
+                                        walk_e(w)
 
         def walk(ss):
             for s in ss:
@@ -1146,6 +1239,8 @@ class Tr:
                     walk_e(s[2]); walk(s[3])
                 elif s[0] == "while":
                     walk_e(s[1]); walk(s[2])
+                else:
+                    raise TranslateError(f"unsupported statement {s[0]} in a loop / branch body")
         walk(stmts)
         return acc
 
@@ -1234,7 +1329,9 @@ class Tr:
             return self.wrap(pre, self.final(env, v))
         if kind == "ret":
             e = s[1]
-            if e[0] in ("if",) and not self.is_value_if(e):
+            if not last and e[0] not in ("if", "macro"):
+                raise TranslateError("value expression in the middle of a block")
+            if e[0] in ("if",) and not (last and self.is_value_if(e)):
                 return self.do_if(e, env, stmts, i, k, kv)
             if e[0] == "macro":
                 return self.do_macro(e, env, rest)
@@ -1366,13 +1463,18 @@ class Tr:
     def do_macro(self, e, env, rest):
         name, args = e[1], e[2]
         if name == "assert" and len(args) >= 1:
-            c_ast = PG(list(args[0])).expr()
+            pa = PG(list(args[0])); c_ast = pa.expr()
+            if pa.peek()[0] != "eof":
+                raise TranslateError("assert!: condition not understood")
+            e0 = self.epoch
             pre = []
             if c_ast[0] == "not":
                 inner = self.ex(c_ast[1], env, pre)
                 if inner.ty.kind in ("bool", "prop"):
                     return self.wrap(pre, Guard(inner.t, "assertion", rest(env), neg=True))
             c = self.cond(c_ast, env, pre)
+            if self.epoch != e0:
+                raise TranslateError("assert! whose condition has a side effect")
             return self.wrap(pre, Guard(c, "assertion", rest(env)))
         raise TranslateError(f"unsupported macro {name}!")
 
@@ -1500,7 +1602,9 @@ class Tr:
         node = self.wrap(cpre, If(c, bnode, Ret(ctuple)))
         rty = env[carried[0]].lean if len(carried) == 1 else "(" + " × ".join(env[n].lean for n in carried) + ")"
         self.aux.append(("while", lname, self.params_text(captured, env), (carried, [env[n].lean for n in carried], rty, ctuple, node)))
-        f = fuel_text if re.fullmatch(r"[\w.]+", fuel_text) else f"({fuel_text})"
+        # the spec's fuel expression bounds the number of ITERATIONS; one more unit pays for the last (false) test of the condition,
+        # so that running out of fuel can be a failure (`| 0 => DIVERGE`), never a success value
+        f = f"({fuel_text} + 1)"
         call = f"{lname} {self.dict_arg()}{cap_args}{f} " + " ".join(lean_id(n) for n in carried)
         pre = [lambda b: ("LOOPCALL", call, ctuple, b)]
         return self.wrap_loopcall(pre, rest(dict(env)))
@@ -1612,7 +1716,11 @@ class Tr:
 
     def translate(self):
         sp = self.spec
-        hdr, body = find_fn(self.src, sp.fn, sp.scope)
+        # bounded `impl` region, unique live match, item #[cfg] evaluated; statement attributes, nested items, inner shadowing, re-bound
+        # `&mut` parameters and `let x = &mut …` aliases (this translator gives `&mut` copy semantics) are refused (ktx_glue_guard.py)
+        hdr, body = GUARD.find_fn(self.src, sp.fn, sp.scope)
+        GUARD.lint_fn(hdr, body, what=f"fn {sp.fn}")
+        GUARD.check_fn_uses(self.mod.file, strip_comments(self.src), hdr, body, what=f"fn {sp.fn}")
         name, generics, params, ret = parse_sig(hdr)
         env, plist, self.out_vars = {}, [], []
         for pn, pt in params:
@@ -1666,9 +1774,12 @@ class Tr:
             m = rty if not fal else (f"Option {paren_ty(rty)}" if R.style == "option" else f"Except {self.mod.panic_ty} {paren_ty(rty)}")
             sig = " → ".join(["Nat"] + ctys + [m])
             cp = ", ".join(carried)
-            return (f"/-- `while` loop of `fn {self.spec.fn}` on fuel -/\n"
+            if not fal:
+                raise TranslateError("internal: a fuel-driven loop must be fallible")
+            under = ", ".join("_" for _ in carried)
+            return (f"/-- `while` loop of `fn {self.spec.fn}` on fuel; running out of fuel is the failure `{R.fail('diverge')}`, never a value -/\n"
                     f"def {name} {gb}{ptext}: {sig}\n"
-                    f"  | 0, {cp} => {R.ok(ctuple)}\n"
+                    f"  | 0, {under} => {R.fail('diverge')}\n"
                     f"  | fuel + 1, {cp} =>\n" + R.go(resolve(node, fal), 4))
         raise TranslateError("internal: aux kind")
 
@@ -1701,6 +1812,8 @@ def fallible_deep(n):
 def aux_fallible(a):
     if a[0] == "join":
         return fallible_deep(a[3])
+    if a[0] == "while":
+        return True              # fuel exhaustion is a failure
     return fallible_deep(a[3][-1])
 
 
